@@ -14,7 +14,8 @@ case kinds
       cases as above holding their EFFECTIVE hyperparameters + "override_keys": the hyperparameters handed to
       register_cell(name, cell, **kwargs)]}.  homeo cells: "target_reg" (value of the `target` override, may be None),
       "fwd_targets": [T] explicit forward(target) per step (None allowed; common to the group, taken from cells[0]);
-      defaults: "target_ctor".  stdp cells share B, T, signal and scale.
+      defaults: "target_ctor".  stdp cells share B, T, signal and scale.  With "layout": "biclique" the stdp cells are the
+      four cells of ONE Biclique layer (cell["bic"] = [connection, neuron]; see run_stdp_biclique).
 
 bound spec: {"form": "half", "upper": {"fn": "multiplicative"|"sharp"|"scaled_multiplicative", "lim": x, "kw": {...}}|None,
              "lower": {...}|None}  |  {"form": "full", "fn": "multiplicative"|"sharp", "max": x|None, "min": y|None}
@@ -170,6 +171,75 @@ def run_homeo_group(defaults, cells):
     return outs
 
 
+def run_homeo_biclique(defaults, cells):
+    """ONE LinearHomeostasis object on ONE Biclique layer (2 dense connections x 2 scripted neuron groups, all four cells
+    registered with per-cell overrides).  Cells sharing a neuron group observe the same neuron.spike (their spike_rate
+    monitors are poolable); cells sharing a connection AND training the same parameter write into the same accumulator.
+    cell["bic"] = [connection, neuron].  The record of a cell holds its own monitored rate and the state of ITS
+    (connection, param) accumulator: the parts appended by the call summed over the cells writing into it, the accumulated
+    parts, the parameter before / after connection.update()."""
+    tr = LinearHomeostasis(defaults["plasticity"], defaults.get("target_ctor"), defaults["param"],
+                           batch_reduction=RED[defaults.get("reduction")])
+    KEEP.append(tr)
+    ncon = 1 + max(c["bic"][0] for c in cells)
+    nneu = 1 + max(c["bic"][1] for c in cells)
+    B, dt = cells[0]["B"], cells[0]["dt"]
+    cspec = [next(c for c in cells if c["bic"][0] == i) for i in range(ncon)]
+    nspec = [next(c for c in cells if c["bic"][1] == j) for j in range(nneu)]
+    conns = []
+    for c in cspec:
+        conn = build_conn(c, True)
+        conn.updater = conn.defaultupdater()
+        conns.append(conn)
+    neurons = [c08_impl.ScriptedNeuron(tuple(conns[0].outshape), dt, batch_size=B) for _ in nspec]
+    layer = neural.Biclique([(f"k{i}", conn) for i, conn in enumerate(conns)], [(f"n{j}", neu) for j, neu in enumerate(neurons)])
+    KEEP.append(layer)
+    accs = {}                                   # (connection, param) -> first cell writing into it
+    for q, c in enumerate(cells):
+        key = (c["bic"][0], c["param"])
+        if key not in accs:
+            accs[key] = c
+            conn = conns[c["bic"][0]]
+            with torch.no_grad():
+                setattr(conn, c["param"], torch.full_like(getattr(conn, c["param"]), float(c["x0"])))
+        cell = getattr(getattr(layer.cells, f"k{c['bic'][0]}"), f"n{c['bic'][1]}")
+        tr.register_cell(f"c{q}", cell, **homeo_override_kwargs(c, conns[c["bic"][0]]))
+    for (i, prm), c in accs.items():
+        set_bounds(getattr(conns[i].updater, prm), c.get("bound"))
+    layer.train()
+    tr.train()
+    for c, neu in zip(nspec, neurons):
+        neu.script = [torch.tensor(p, dtype=torch.bool) for p in c["post"]]
+    T = len(cells[0]["post"])
+    fwd = cells[0].get("fwd_targets") or [None] * T
+    recs = {k: {"steps": []} for k in accs}
+    rates = [[] for _ in cells]
+    for t in range(T):
+        layer({f"k{i}": (torch.zeros(B, *conn.inshape, dtype=torch.bool),) for i, conn in enumerate(conns)})
+        marks = {(i, prm): (len(getattr(conns[i].updater, prm)._pos), len(getattr(conns[i].updater, prm)._neg)) for (i, prm) in accs}
+        tr(fwd[t])
+        for q in range(len(cells)):
+            rates[q].append(flat(tr.get_unit(f"c{q}").monitors["spike_rate"].peek()))
+        for (i, prm) in accs:
+            acc = getattr(conns[i].updater, prm)
+            pv = getattr(conns[i], prm)
+            sp, sn, kp, kn = new_sum(acc, marks[(i, prm)][0], marks[(i, prm)][1], pv)
+            recs[(i, prm)]["steps"].append({"pos": sp, "neg": sn, "apos": flat_like(acc.pos, pv), "aneg": flat_like(acc.neg, pv)})
+    before = {(i, prm): getattr(conns[i], prm).detach().clone() for (i, prm) in accs}
+    for conn in conns:
+        conn.update()
+    for (i, prm) in accs:
+        acc = getattr(conns[i].updater, prm)
+        recs[(i, prm)].update({"before": flat(before[(i, prm)]), "after": flat(getattr(conns[i], prm).detach()),
+                               "pshape": list(before[(i, prm)].shape), "cleared": acc.pos is None and acc.neg is None})
+    out = []
+    for q, c in enumerate(cells):
+        r = recs[(c["bic"][0], c["param"])]
+        out.append({"ok": True, "steps": [dict(st, rate=rates[q][t]) for t, st in enumerate(r["steps"])],
+                    "before": r["before"], "after": r["after"], "pshape": r["pshape"], "cleared": r["cleared"]})
+    return out
+
+
 def run_homeo(case):
     """a single cell: the trainer is constructed with the cell's own hyperparameters; "target_at" says where a single
     target is given ("init" | "register" | "forward")"""
@@ -266,6 +336,79 @@ def run_stdp(case):
     return run_stdp_group(case, [dict(case, override_keys=[])])[0]
 
 
+def new_sum(acc, n0p, n0n, param):
+    """the parts appended to an accumulator since (n0p, n0n), summed (several cells may write into one accumulator)"""
+    p = list(acc._pos)[n0p:]
+    n = list(acc._neg)[n0n:]
+    sp = flat_like(torch.stack([*p], 0).sum(0), param) if p else None
+    sn = flat_like(torch.stack([*n], 0).sum(0), param) if n else None
+    return sp, sn, len(p), len(n)
+
+
+def run_stdp_biclique(defaults, cells):
+    """ONE trainer object and ONE Biclique layer (2 connections x 2 neuron groups, all four cells registered, each with its
+    own keyword overrides): cells sharing a neuron group observe the same neuron.spike, cells sharing a connection observe
+    the same connection.synspike AND write into the same accumulator.  cell["bic"] = [connection index, neuron index];
+    connection-level data (n_in, n_out, kmax, delays, w0, bound, pre) is read from the first cell on that connection,
+    neuron-level data (post) from the first cell on that neuron.  The result of a cell is the record of ITS CONNECTION's
+    accumulator (new parts of the call summed over the cells on the connection, accumulated parts, weight before / after)."""
+    trainer = c08_impl.mk_trainer(defaults)
+    KEEP.append(trainer)
+    ncon = 1 + max(c["bic"][0] for c in cells)
+    nneu = 1 + max(c["bic"][1] for c in cells)
+    B, dt = cells[0]["B"], cells[0]["dt"]
+    cspec = [next(c for c in cells if c["bic"][0] == i) for i in range(ncon)]
+    nspec = [next(c for c in cells if c["bic"][1] == j) for j in range(nneu)]
+    conns, neurons = [], []
+    for c in cspec:
+        conn = build_conn(c, False)
+        with torch.no_grad():
+            conn.weight = torch.full_like(conn.weight, float(c.get("w0", 0.5)))
+            if c.get("kmax") is not None:
+                conn.delay = (torch.tensor(c["delays"], dtype=torch.float64) * dt).reshape(conn.delay.shape)
+        conn.updater = conn.defaultupdater()
+        conns.append(conn)
+    for c in nspec:
+        neurons.append(c08_impl.ScriptedNeuron(tuple(conns[0].outshape), dt, batch_size=B))
+    layer = neural.Biclique([(f"k{i}", conn) for i, conn in enumerate(conns)], [(f"n{j}", neu) for j, neu in enumerate(neurons)])
+    KEEP.append(layer)
+    for q, c in enumerate(cells):
+        cell = getattr(getattr(layer.cells, f"k{c['bic'][0]}"), f"n{c['bic'][1]}")
+        trainer.register_cell(f"c{q}", cell, **stdp_override_kwargs(c))
+    layer.train()
+    trainer.train()
+    for i, (c, conn) in enumerate(zip(cspec, conns)):
+        set_bounds(conn.updater.weight, c.get("bound"))
+    for c, neu in zip(nspec, neurons):
+        neu.script = [torch.tensor(p, dtype=torch.bool) for p in c["post"]]
+    T = len(cells[0]["pre"])
+    sig = cells[0].get("signal")
+    recs = [{"ok": True, "steps": []} for _ in conns]
+    for t in range(T):
+        layer({f"k{i}": (torch.tensor(c["pre"][t], dtype=torch.bool).reshape(B, *conn.inshape),)
+               for i, (c, conn) in enumerate(zip(cspec, conns))})
+        marks = [(len(conn.updater.weight._pos), len(conn.updater.weight._neg)) for conn in conns]
+        if sig is None:
+            trainer()
+        else:
+            s = sig[t]
+            s = torch.tensor(s, dtype=torch.float64) if isinstance(s, list) else float(s)
+            trainer(s, cells[0].get("scale", 1.0))
+        for i, conn in enumerate(conns):
+            acc = conn.updater.weight
+            sp, sn, kp, kn = new_sum(acc, marks[i][0], marks[i][1], conn.weight)
+            recs[i]["steps"].append({"pos": sp, "neg": sn, "npos": kp, "nneg": kn, "apos": flat_like(acc.pos, conn.weight),
+                                     "aneg": flat_like(acc.neg, conn.weight)})
+    for i, conn in enumerate(conns):
+        acc = conn.updater.weight
+        before = conn.weight.detach().clone()
+        conn.update()
+        after = conn.weight.detach().clone()
+        recs[i].update({"before": flat(before), "after": flat(after), "pshape": list(before.shape),
+                        "cleared": acc.pos is None and acc.neg is None})
+    return [recs[c["bic"][0]] for c in cells]
+
+
 def err_record(e):
     import traceback
     return {"ok": False, "err": exc_code(e), "msg": f"{type(e).__name__}: {e}"[:400], "trace": traceback.format_exc()[-1500:]}
@@ -276,7 +419,9 @@ def handler(payload):
     for c in payload["cases"]:
         try:
             if c["kind"] == "group":
-                fn = run_homeo_group if c["family"] == "homeo" else run_stdp_group
+                bic = c.get("layout") == "biclique"
+                fn = ((run_homeo_biclique if bic else run_homeo_group) if c["family"] == "homeo"
+                      else (run_stdp_biclique if bic else run_stdp_group))
                 out.append(fn(c["defaults"], c["cells"]))
             elif c["kind"] == "homeo":
                 out.append(run_homeo(c))
